@@ -436,7 +436,7 @@ ACCOUNT_ACTIONS = {
     "DeleteFolder": "ADeleteFolder", "RenameFolder": "ARenameFolder", "SetDescription": "ASetDescription",
     "SetFlags": "ASetFlags", "SignOutIn": "ASignOutIn", "LockUnlock": "ALockUnlock",
     "Compact": "ACompact", "ChangeFolderPassword": "AChangeFolderPassword",
-    "ChangeAccountPassword": "AChangeAccountPassword",
+    "ChangeAccountPassword": "AChangeAccountPassword", "ChangeCipher": "AChangeCipher",
 }
 
 ACCOUNT_INIT = None
@@ -447,7 +447,7 @@ def account_init(consts_py):
     return {"folders": [], "name": {f: "name_" + f for f in allf}, "desc": {f: "e0" for f in allf},
             "flag": {f: "plain" for f in allf},
             "sec": {f: {s: "none" for s in consts_py["Slots"]} for f in allf},
-            "epoch": {f: 0 for f in allf}, "aepoch": 0}
+            "epoch": {f: 0 for f in allf}, "aepoch": 0, "cflips": 0}
 
 
 def tla_set(xs):
@@ -607,18 +607,20 @@ def check_c02(tier, replay):
 
 
 C12_ENABLED = ["CreateSecret", "UpdateSecret", "DeleteSecret", "CreateFolder", "RenameFolder", "SetDescription",
-               "SetFlags", "SignOutIn", "Compact", "ChangeFolderPassword", "ChangeAccountPassword"]
+               "SetFlags", "SignOutIn", "Compact", "ChangeFolderPassword", "ChangeAccountPassword", "ChangeCipher"]
 
 
 @register("C12")
 def check_c12(tier, replay):
-    rule = ("Behaviours of Account.tla with Compact / ChangeFolderPassword / ChangeAccountPassword placed at "
+    rule = ("Behaviours of Account.tla with Compact / ChangeFolderPassword / ChangeAccountPassword / ChangeCipher placed at "
             "every state of histories with renames, description and flag changes and deletes (key epochs "
             "bounded by MaxEpoch) are replayed on LocalAccount (fs + sqlite); after each such step the served "
             "state must be unchanged (spec state), the folder log must have exactly 1 + |live secrets| events "
             "starting with the creation event, reduce(log) = served = persisted, the previous folder password "
             "must not unlock the persisted folder nor the vault rebuilt from the log, the new one must, and "
-            "the old account password must not sign in. Non-trivial = behaviour with a state-changing step.")
+            "the old account password must not sign in; after a cipher change every folder (and what is loaded "
+            "from storage) has the new cipher, a compacted log, and no blob with the old cipher's nonce length "
+            "remains in its vault or log. Non-trivial = behaviour with a state-changing step.")
     if tier == "quick":
         inst = [{"consts": base_consts(MetaFolders=["f1"], Slots=["s1"], Values=["v1", "v2"],
                                        Enabled=C12_ENABLED), "max_len": 60}]
